@@ -116,6 +116,11 @@ def check_vectors(ctx, exe, vecs, origin):
             plan.append(("dist", row))
             cmds.append("single %d" % row["s"])
             plan.append(("single", row["s"]))
+            cmds.append("dfs %d" % row["s"])
+            plan.append(("dfs", row))
+        for b in r.get("branches", []):
+            cmds.append("branch %d %d %d" % (b["s"], b["e"][0], b["e"][1]))
+            plan.append(("branch", b))
         cmds += ["decouple", "reduce", "sid"]
         plan += [("decouple", None), ("reduce", None), ("sid", 0)]
         cmds += [_gcmd(r["rvs"], r["rat"], r["res"]), "sid"]
@@ -165,6 +170,21 @@ def check_vectors(ctx, exe, vecs, origin):
                         ctx.violation("dist:explored:%s" % shape,
                                       "reachable vertex %d not explored from %d; %s" % (v, arg["s"], _brief(r)), r)
                         break
+            elif kind == "dfs":
+                got = frozenset(int(x) for x in lines[0].split()[1:])
+                want = frozenset(v for v, d in arg["d"] if d >= 0)
+                if got != want:
+                    ctx.violation("dfs:explored:%s" % shape, "Graph_DF_Visitor from %d explores %s, reachable set is %s; %s"
+                                  % (arg["s"], sorted(got), sorted(want), _brief(r)), r)
+            elif kind == "branch":
+                ctx.extra["n_branch"] = ctx.extra.get("n_branch", 0) + 1
+                gl = _edges(lines[0].split()[1:])
+                want = _eset(arg["b"])
+                if len(want) < len(E):
+                    ctx.extra["n_branch_proper"] = ctx.extra.get("n_branch_proper", 0) + 1
+                if frozenset(gl) != want or len(gl) != len(want):
+                    ctx.violation("exploreBranch:%s" % shape, "exploreBranch from %d through %s gives %s, the branch is %s; %s"
+                                  % (arg["s"], arg["e"], sorted(gl), sorted(want), _brief(r)), r)
             elif kind == "single":
                 got = lines[0].split()[1]
                 if got != ("1" if r["single"] else "0"):
@@ -308,14 +328,15 @@ def _hist_cmds(r):
     plan.append(("setup", None))
     for j, op in enumerate(r["h"]):
         a = op["a"]
+        on = op.get("on", 0)
         if a == "add":
-            cmds.append("bs_add 0 %d %s %s" % (op["id"], PAL[op["at"]][0], PAL[op["at"]][1]))
+            cmds.append("bs_add %d %d %s %s" % (on, op["id"], PAL[op["at"]][0], PAL[op["at"]][1]))
             plan.append(("mut", j))
         elif a == "conn":
-            cmds.append("bs_conn 0 %d %d" % (op["x"], op["y"]))
+            cmds.append("bs_conn %d %d %d" % (on, op["x"], op["y"]))
             plan.append(("mut", j))
         elif a == "single":
-            cmds.append("bs_single 0")
+            cmds.append("bs_single %d" % on)
             plan.append(("single", j))
         elif a == "equiv":
             slot = REF_SLOT
@@ -325,18 +346,24 @@ def _hist_cmds(r):
                 cmds += bc
                 plan += [("setup", None)] * len(bc)
                 slot = 1
-            cmds += ["bs_equiv 0 %d" % slot, "bs_equiv %d 0" % slot]
+            cmds += ["bs_equiv %d %d" % (on, slot), "bs_equiv %d %d" % (slot, on)]
             plan += [("equiv", j), ("equiv", j)]
         elif a == "graph":
-            cmds.append("bs_graph 0")
+            cmds.append("bs_graph %d" % on)
             plan.append(("graph", j))
         elif a == "break":
-            cmds.append("bs_break 0")
+            cmds.append("bs_break %d" % on)
             plan.append(("break", j))
         elif a == "sub":
-            cmds.append("bs_sub 0 2 %d %s %d %s" % (len(op["ids"]), " ".join(str(x) for x in op["ids"]), len(op["es"]),
-                                                   " ".join("%d %d" % (e[0], e[1]) for e in op["es"])))
+            cmds.append("bs_sub %d 2 %d %s %d %s" % (on, len(op["ids"]), " ".join(str(x) for x in op["ids"]), len(op["es"]),
+                                                    " ".join("%d %d" % (e[0], e[1]) for e in op["es"])))
             plan.append(("sub", j))
+        elif a == "fork":
+            cmds.append("bs_copy %d %d %d" % (on, op["to"], op["mode"]))
+            plan.append(("setup", None))
+        elif a == "probe":
+            cmds.append("bs_graph %d" % op["slot"])
+            plan.append(("probe", j))
         else:
             raise vlib.InfraError("unknown history op %s" % op)
     return cmds, plan
@@ -407,6 +434,9 @@ def check_histories(ctx, exe, hists, origin):
                 ctx.violation("BeadStructure:%s:exception" % op["a"], "%s raised %s" % (where, ex), r)
                 break
             cx = _context(r, j)
+            if any(o["a"] == "fork" for o in r["h"][:j]):
+                cx = "on-copy:" + cx
+                ctx.extra["n_query_on_copy"] = ctx.extra.get("n_query_on_copy", 0) + 1
             if kind == "single":
                 if op["defined"] and (lines[0].split()[1] == "1") != op["exp"]:
                     ctx.violation("BeadStructure:isSingleStructure:%s" % cx, "%s: got %s, expected %s" % (where, lines[0], op["exp"]), r)
@@ -416,6 +446,12 @@ def check_histories(ctx, exe, hists, origin):
                 if op["exp"] != "any" and got != op["exp"]:
                     ctx.violation("BeadStructure:isStructureEquivalent:%s:%s" % (op["kind"], cx),
                                   "%s: got %s, expected %s" % (where, got, op["exp"]), r)
+                    break
+            elif kind == "probe":
+                ctx.extra["n_probe_after_fork"] = ctx.extra.get("n_probe_after_fork", 0) + 1
+                if not _graphrec_matches(lines[0], op["exp"]):
+                    ctx.violation("BeadStructure:copy:original-changed",
+                                  "%s: the abandoned original shows %s, it had %s when it was copied" % (where, lines[0], op["exp"]), r)
                     break
             elif kind == "graph":
                 if not _graphrec_matches(lines[0], op["exp"]):
@@ -447,6 +483,10 @@ def _op_str(op):
         return "isStructureEquivalent(%s)" % op["kind"]
     if a == "sub":
         return "getSubStructure(%s,%s)" % (op["ids"], op["es"])
+    if a == "fork":
+        return "copy(%s)->slot%d" % ("ctor" if op["mode"] == 0 else "assign", op["to"])
+    if a == "probe":
+        return "original.getGraph()"
     return {"single": "isSingleStructure()", "graph": "getGraph()", "break": "breakIntoStructures()"}[a]
 
 
@@ -838,12 +878,23 @@ def validate_bead_traces(ctx, recs, spans, items):
 
 def check_sweep_histories(ctx, exe, hists):
     items = []
+    plans = []
     for i, r in enumerate(hists):
         vs = r["vs"]
         cmds = [_gcmd(vs, [1 + (k % 3) for k in range(len(vs))], r["es"])]
         cmds += ["prelabel %d %d" % (v, d) for v, d in r["pre"]]
-        cmds += ["hdist %d" % op["s"] for op in r["h"]]
+        plan = [None] * len(cmds)
+        for j, op in enumerate(r["h"]):
+            if op.get("cp", -1) >= 0:
+                cmds.append("gcopy %d" % op["cp"])
+                plan.append(None)
+            cmds.append("hdist %d" % op["s"])
+            plan.append(("sweep", j))
+            if op.get("cp", -1) >= 0:
+                cmds.append("gold")
+                plan.append(("old", j))
         items.append((i, cmds))
+        plans.append(plan)
     results, crashes = _run_parallel(exe, items)
     for i, r in enumerate(hists):
         ctx.traces += 1
@@ -852,12 +903,27 @@ def check_sweep_histories(ctx, exe, hists):
         if i in crashes:
             ctx.violation("dist:history:crash", "driver aborted: %s on %s" % (crashes[i], r), r)
             continue
-        out = results[i][1 + len(r["pre"]):]
-        for j, (op, lines) in enumerate(zip(r["h"], out)):
+        for pl, lines in zip(plans[i], results[i]):
+            if pl is None:
+                continue
+            what, j = pl
+            op = r["h"][j]
             ex = _exc(lines)
             if ex:
                 ctx.violation("dist:history:exception", "sweep %d from %d raised %s; %s" % (j, op["s"], ex, _sweeps(r)), r)
                 break
+            if what == "old":
+                ctx.extra["n_graph_copy_probe"] = ctx.extra.get("n_graph_copy_probe", 0) + 1
+                sec = _sections(lines[0])
+                got = dict((int(t.split(":")[0]), int(t.split(":")[1])) for t in sec.get("dist", []))
+                verts, nodes, el = _graph_line(lines[1])
+                wrong = [(v, got.get(v), d) for v, d in op["old"] if got.get(v) != d]
+                if wrong or verts != frozenset(r["vs"]) or frozenset(el) != _eset(r["es"]):
+                    ctx.violation("Graph:copy:original-changed",
+                                  "after copying (mode %d) and sweeping the COPY from %d the original shows %s / %s, expected labels %s; %s"
+                                  % (op["cp"], op["s"], lines[0], lines[1], op["old"], _sweeps(r)), r)
+                    break
+                continue
             sec = _sections(lines[0])
             got = dict((int(t.split(":")[0]), int(t.split(":")[1])) for t in sec.get("dist", []))
             wrong = [(v, got.get(v), d) for v, d in op["d"] if got.get(v) != d]
@@ -866,6 +932,8 @@ def check_sweep_histories(ctx, exe, hists):
                     kind = "prelabelled-first-sweep" if r["pre"] else "first-sweep"
                 else:
                     kind = "repeated-start" if op["s"] in [o["s"] for o in r["h"][:j]] else "later-sweep-other-start"
+                    if op.get("cp", -1) >= 0:
+                        kind = "on-copy:" + kind
                 v, g_, d = wrong[0]
                 ctx.violation("dist:history:%s" % kind,
                               "sweep %d from %d on the same Graph object labels vertex %d with %s, shortest hop count is %d "
@@ -883,6 +951,131 @@ def _sweeps(r):
     return "G: V=%s E=%s pre-labels=%s sweeps from %s" % (r["vs"], r["es"], r["pre"], [op["s"] for op in r["h"]])
 
 
+# ----------------------------------------------------------------------------------------
+# breakIntoMotifs / breakIntoSimpleMotifs / BeadMotifConnector: logged decompositions judged by TLC
+# ----------------------------------------------------------------------------------------
+
+_MOTIF_KEYS = {"MotifTops": "breakIntoMotifs:components", "MotifNoDuplicates": "breakIntoSimpleMotifs:duplicate",
+               "MotifLossless": "breakIntoSimpleMotifs:lossless"}
+
+
+def motif_traces(ctx, exe, graphs):
+    """graphs: list of (vs, es).  Returns the logged decompositions."""
+    items = []
+    for i, (vs, es) in enumerate(graphs):
+        items.append((i, _bs_build(0, vs, [1 + (k % 3) for k in range(len(vs))], es) + ["bs_motifs 0"]))
+    results, crashes = _run_parallel(exe, items)
+    recs = []
+    for i, (vs, es) in enumerate(graphs):
+        inp = {"vs": vs, "es": es}
+        if i in crashes:
+            ctx.violation("breakIntoSimpleMotifs:crash", "driver aborted on %s: %s" % (inp, crashes[i]), inp)
+            continue
+        lines = results[i][-1]
+        ex = _exc(lines)
+        if ex:
+            ctx.violation("breakIntoSimpleMotifs:exception", "raised %s on %s" % (ex, inp), inp)
+            continue
+        rec = {"vs": list(vs), "es": [list(e) for e in es], "tops": []}
+        for ln in lines[1:]:
+            p = ln.split()
+            if p[0] == "top":
+                rec["tops"].append({"type": p[1], "ids": [int(x) for x in p[3:]], "motifs": [], "conns": []})
+            elif p[0] == "motif":
+                sec = _sections(" ".join(p[3:]))
+                rec["tops"][-1]["motifs"].append({"id": int(p[1]), "type": p[2], "ids": [int(x) for x in sec.get("ids", [])],
+                                                   "es": [list(e) for e in _edges(sec.get("edges", []))]})
+            elif p[0] == "conn":
+                rec["tops"][-1]["conns"].append({"e": list(_edge(p[1])), "m": [int(p[3]), int(p[4])]})
+        recs.append(rec)
+    return recs
+
+
+def validate_motif_traces(ctx, recs):
+    import re
+    if not recs:
+        return
+    res = _tlc_trace("graph", "MotifTrace", recs, "motiftrace.ndjson")
+    ctx.add_tlc("MotifTrace(%d records)" % len(recs), res)
+    if not res.ok:
+        m = re.search(r"Invariant (\w+) is violated", res.violation or "")
+        idx = re.findall(r"/\\ i = (\d+)", res.out)
+        if not m or not idx:
+            raise vlib.InfraError("MotifTrace rejected a record but it could not be located:\n" + res.out[-2000:])
+        rec = recs[int(idx[-1]) - 1]
+        again = _tlc_trace("graph", "MotifTrace", [rec], "motiftrace-one.ndjson", workers=1)
+        if again.ok:
+            raise vlib.InfraError("MotifTrace rejection was not reproducible")
+        if m.group(1) == "MotifWellFormed":
+            raise vlib.InfraError("MotifTrace: malformed record %s" % rec)
+        ctx.violation(_MOTIF_KEYS.get(m.group(1), "motif:" + m.group(1)),
+                      "TLC rejects the logged motif decomposition (%s): %s" % (m.group(1), rec), rec)
+    ctx.traces += len(recs)
+    # vacuity guard: complex structures were really split and connectors really produced
+    ctx.extra["n_motif_split"] = sum(1 for r in recs for t in r["tops"] if len(t["motifs"]) > 1)
+    ctx.extra["n_motif_connector_edges"] = sum(len(t["conns"]) for r in recs for t in r["tops"])
+    ctx.extra["motif_types_seen"] = sorted(set(m["type"] for r in recs for t in r["tops"] for m in t["motifs"]))
+
+
+# ----------------------------------------------------------------------------------------
+# structure id as a string: adversarial names (IdString.tla) and the mass lattice (IdMass.tla)
+# ----------------------------------------------------------------------------------------
+
+def check_id_strings(ctx, exe, pairs, masses):
+    items = []
+    for i, r in enumerate(pairs):
+        cmds = []
+        for slot, st in ((0, r["x"]), (1, r["y"])):
+            cmds.append("bs_new %d" % slot)
+            for k, bd in enumerate(st["b"]):
+                cmds.append("bs_add %d %d %s %d" % (slot, 10 * slot + 3 + 4 * k, "".join(bd["n"]), bd["m"]))
+            if st["edge"]:
+                cmds.append("bs_conn %d %d %d" % (slot, 10 * slot + 3, 10 * slot + 7))
+        cmds += ["bs_equiv 0 1", "bs_equiv 1 0"]
+        items.append((("s", i), cmds))
+    for i, r in enumerate(masses):
+        fmt = lambda k: repr(k / float(r["unit"]))
+        items.append((("m", i), ["bs_new 0", "bs_add 0 5 C %s" % fmt(r["ma"]), "bs_new 1", "bs_add 1 77 C %s" % fmt(r["mb"]),
+                                 "bs_equiv 0 1", "bs_equiv 1 0"]))
+    results, crashes = _run_items(exe, items)
+    ncoll = 0
+    for (fam, i), cmds in items:
+        r = pairs[i] if fam == "s" else masses[i]
+        ctx.count()
+        ctx.nontriv(("idstring", fam, i))
+        if (fam, i) in crashes:
+            ctx.violation("isStructureEquivalent:crash", "driver aborted on %s: %s" % (r, crashes[(fam, i)]), r)
+            continue
+        out = results[(fam, i)]
+        bad = [ln for lines in out for ln in lines if ln.startswith("exc")]
+        if bad:
+            ctx.violation("isStructureEquivalent:exception", "%s on %s" % (bad[0], r), r)
+            continue
+        got = [lines[0].split()[1] == "1" for lines in out[-2:]]
+        if fam == "m":
+            if any(got):
+                ctx.violation("isStructureEquivalent:altered-multiset:mass-within-8-digits",
+                              "single beads with masses %r and %r (units of 1/%d) are reported equivalent" %
+                              (r["ma"], r["mb"], r["unit"]), r)
+            continue
+        keyword = any(t in ("Dist", "Mass", "Name") for t in r["x"]["b"][0]["n"])
+        if r.get("idcollide"):
+            ncoll += 1
+        if any(got):
+            ctx.violation("isStructureEquivalent:altered-multiset:%s" % ("name-contains-keyword" if keyword else "plain-names"),
+                          "structures with different (name,mass) multisets are reported equivalent: X=%s Y=%s" %
+                          (_fmt_struct(r["x"]), _fmt_struct(r["y"])), r)
+        if all(got) != r["collide"]:
+            ctx.extra.setdefault("algo_drift", [])
+            if len(ctx.extra["algo_drift"]) < 5:
+                ctx.extra["algo_drift"].append({"idstring_model_says_collide": r["collide"], "code_says_equal": got, "pair": r})
+    ctx.extra["n_idstring_id_collisions"] = ncoll
+
+
+def _fmt_struct(st):
+    return "%s%s" % ([("".join(b["n"]), b["m"]) for b in st["b"]], " bonded" if st["edge"] else "")
+
+
 def _replay(ctx, exe):
     """--replay FILE: re-run exactly one recorded vector / history / logged run"""
     import json
@@ -893,6 +1086,12 @@ def _replay(ctx, exe):
         check_histories(ctx, exe, [obj], "replay")
     elif isinstance(obj, dict) and "dist" in obj:
         check_vectors(ctx, exe, [obj], "replay")
+    elif isinstance(obj, dict) and "collide" in obj:
+        check_id_strings(ctx, exe, [obj], [])
+    elif isinstance(obj, dict) and "ma" in obj:
+        check_id_strings(ctx, exe, [], [obj])
+    elif isinstance(obj, dict) and "tops" in obj:
+        validate_motif_traces(ctx, motif_traces(ctx, exe, [(obj["vs"], obj["es"])]))
     elif isinstance(obj, dict) and "starts" in obj:
         validate_graph_traces(ctx, [obj])
     elif isinstance(obj, dict) and "records" in obj:
@@ -945,6 +1144,8 @@ def run(ctx):
     if not vecs:
         raise vlib.InfraError("no vectors exported by " + mod)
     check_vectors(ctx, exe, vecs, mod)
+    salt0 = min(r["salt"] for r in vecs)
+    motif_graphs = [(r["vs"], r["es"]) for r in vecs if r["salt"] == salt0 and r["n"] <= 5 or r["n"] == 7]
     ctx.sample({"graph_vector": dict((k, v) for k, v in vecs[len(vecs) // 2].items() if k != "cands")})
     mod = "MCLaws" if quick else "MCLawsThorough"
     res = vlib.tlc("graph", mod, cfg=mod + ".cfg", timeout=3000)
@@ -968,9 +1169,28 @@ def run(ctx):
     hists += res.records
     res = None
     check_histories(ctx, exe, hists, "MCBead")
-    ctx.sample({"history": [_op_str(o) + " -> " + str(o["exp"])[:80] for o in hists[len(hists) // 3]["h"]]})
-    ctx.sample({"history": [_op_str(o) + " -> " + str(o["exp"])[:80] for o in hists[-1]["h"]]})
+    ctx.sample({"history": [_op_str(o) + " -> " + str(o.get("exp", ""))[:80] for o in hists[len(hists) // 3]["h"]]})
+    ctx.sample({"history": [_op_str(o) + " -> " + str(o.get("exp", ""))[:80] for o in hists[-1]["h"]]})
     del hists
+
+    # ---- 3a. the id as a string: adversarial names, mass lattice --------------------------------------
+    res = vlib.tlc("graph", "MCIdString", cfg="MCIdString.cfg", timeout=1200)
+    vlib.tlc_must_hold(res, "IdString: ids of keyword-free names are injective on the family")
+    ctx.add_tlc("MCIdString", res)
+    res2 = vlib.tlc("graph", "IdMass", cfg="IdMass.cfg", timeout=600)
+    vlib.tlc_must_hold(res2, "IdMass: lattice masses have at most 8 significant digits")
+    ctx.add_tlc("IdMass", res2)
+    if not res.records or not res2.records:
+        raise vlib.InfraError("no id-string vectors exported")
+    check_id_strings(ctx, exe, res.records, res2.records)
+
+    # ---- 3b. motif decompositions of the vector-domain graphs and of larger random ones -----------
+    rnd = random.Random(ctx.seed * 31337 + 5)
+    for _ in range(150 if quick else 4000):
+        ids = _rand_ids(rnd, rnd.randrange(6, 13))
+        motif_graphs.append((ids, _rand_graph(rnd, ids)))
+    validate_motif_traces(ctx, motif_traces(ctx, exe, motif_graphs))
+    del motif_graphs
 
     # ---- 4. real runs on larger random graphs, validated by TLC ------------------------------------
     recs = graph_traces(ctx, exe, 300 if quick else 8000)
@@ -982,5 +1202,13 @@ def run(ctx):
     recs, spans, titems = bead_traces(ctx, exe, 150 if quick else 2000, 40 if quick else 60)
     validate_bead_traces(ctx, recs, spans, titems)
     ctx.exhaustive = False
+
+    # ---- vacuity guards: the cases the newer layers are about really occurred in this run ------------
+    need = ["n_graph_copy_probe", "n_branch_proper", "n_query_on_copy", "n_probe_after_fork", "n_motif_split",
+            "n_motif_connector_edges", "n_idstring_id_collisions"]
+    missing = [k for k in need if not ctx.extra.get(k)]
+    if missing or set(ctx.extra.get("motif_types_seen", [])) != {"single_bead", "line", "loop", "fused_ring"}:
+        raise vlib.InfraError("vacuous run: counters %s are zero / motif types seen %s" %
+                              (missing, ctx.extra.get("motif_types_seen")))
 
 
